@@ -59,6 +59,11 @@ type Result struct {
 // spawns tasks. It runs on the main goroutine before the scheduler starts.
 type Build func(w *World)
 
+// Scale multiplies the length of the histories a world generates (operations
+// per task, packets, requests, steps). 1 in the quick tier, 3 in the thorough
+// tier; part of a replay file.
+var Scale = 1
+
 // ResetHooks are run before every run (restore process-global state).
 var ResetHooks []func()
 
